@@ -12,7 +12,7 @@ open Aggkit.CertRange
 
 /-- a reachable state: any admissible history from an empty node and an empty Agglayer -/
 def Reachable (size : Params → Nat) (s : Sys) : Prop :=
-  ∃ cfg ops, cfg.omitPrev = false ∧ (∀ op ∈ ops, OpOK op) ∧ s = run size { cfg := cfg } ops
+  ∃ cfg ops, cfg.omitPrev = false ∧ opsOK size { cfg := cfg } ops = true ∧ s = run size { cfg := cfg } ops
 
 theorem reachable_inv (size : Params → Nat) (s : Sys) (h : Reachable size s) : Inv s := by
   obtain ⟨cfg, ops, hc, ho, e⟩ := h
